@@ -53,6 +53,15 @@ ListFinger(r) ==
   ELSE IF ~r.compiles THEN {<<"C01", "does-not-compile", "default-list", r.id>>}
   ELSE IF r.panic THEN {<<"C11", "method-with-default-panics", "nested-pointer-target-below-list-method", r.id>>, <<"C02", "panic", "default-on-list-method", r.id>>}
   ELSE IF r.res.nil \/ r.res.A # 5 THEN {<<"C11", "value-to-pointer-not-converted", "nested-pointer-target-below-list-method", r.id>>} ELSE {}
+\* C11: default:update where goverter also has a generated helper for the struct pair (recursive type: seen rule and rebuild; or a
+\* helper made for a sibling list method): the source is applied on top of FUNC's result, FUNC's other values survive
+UpdRecFinger(r) ==
+  IF r.gen = "panic" THEN {<<"C13", "generator-panic", r.why, r.id>>}
+  ELSE IF r.gen # "ok" THEN {<<"C11", "default-constructor-program-rejected", r.kind, r.id>>}
+  ELSE IF ~r.compiles THEN {<<"C01", "does-not-compile", r.kind, r.id>>}
+  ELSE IF r.panic THEN {<<"C11", "method-with-default-panics", r.kind, r.id>>}
+  ELSE IF r.res.nil \/ r.res.A # 5 THEN {<<"C11", "mapped-field-not-converted", r.kind, r.id>>}
+  ELSE IF r.res.B # 100 THEN {<<"C11", "default-update-replaces-constructor-result", "generated-helper-called", r.id>>} ELSE {}
 \* C11, default constructors: res = [nil, A, B] of the returned struct (nil: a nil pointer was returned)
 DMatch(e, got) == e = -1 \/ e = got
 DefFinger(r) ==
@@ -73,7 +82,7 @@ Finger18(r) ==
        \cup (IF \E i \in DOMAIN r.decls : r.decls[i] \notin {"struct", "method"} THEN {<<"C18", "extra-top-level-declaration", r.kind, r.id>>} ELSE {})
 Finger0(r) == IF r.kind = "genfile" THEN {}
               ELSE IF r.kind = "update-iface" THEN (IF r.gen = "ok" /\ r.compiles THEN {} ELSE {<<"C10", "update-method-rejected", "interface-member", r.id>>})
-              ELSE IF r.kind = "field" THEN FieldFinger(r) ELSE IF r.kind = "acc" THEN AccFinger(r) ELSE IF r.kind = "fieldx" THEN XFinger(r) ELSE IF r.kind = "default-rebuild" THEN RebuildFinger(r) ELSE IF r.kind = "default-list" THEN ListFinger(r) ELSE IF r.kind = "default" THEN DefFinger(r) ELSE UpdFinger(r)
+              ELSE IF r.kind = "field" THEN FieldFinger(r) ELSE IF r.kind = "acc" THEN AccFinger(r) ELSE IF r.kind = "fieldx" THEN XFinger(r) ELSE IF r.kind = "default-rebuild" THEN RebuildFinger(r) ELSE IF r.kind = "default-list" THEN ListFinger(r) ELSE IF r.kind \in {"default-update-rec", "default-update-shared"} THEN UpdRecFinger(r) ELSE IF r.kind = "default" THEN DefFinger(r) ELSE UpdFinger(r)
 VARIABLES l, bad
 Init == l = 1 /\ bad = {}
 Next == /\ l <= Len(Obs)
